@@ -61,6 +61,11 @@ pub enum Op {
     /// (world::related_pedersen), in a parameter object built for this call and dropped at its end: whatever
     /// the library remembers about an object must not outlive it
     UnderOwnGenerators { desc: ProveDesc, variant: u8, action: usize },
+    /// a parameter construction that does not complete: kind 0 = an aggregation capacity of 2^63 (a power of
+    /// two, so it passes the argument checks; the allocation request then panics), 1 = a capacity that is not
+    /// a power of two, 2 = bit length 0. Refused or panicking, the call must leave nothing behind: every
+    /// later call returns what it returns in a process where this one never happened
+    FailingConstruction { bits: usize, ext: usize, kind: u8 },
 }
 
 /// Real threads under the cooperative scheduler (coop.rs): preemption inside library calls.
@@ -101,19 +106,29 @@ impl<G: Group> Env<G> {
     }
 
     /// shared parameter object: first user constructs, later users clone (one Arc table)
-    fn params(&mut self, client: usize, bits: usize, cap: usize, ext: usize) -> RangeParameters<G> {
-        let p = self
-            .pool
-            .entry((bits, cap, ext))
-            .or_insert_with(|| G::params(bits, cap, G::pedersen(ext)).expect("params"))
-            .clone();
+    /// Err: the library refused (or panicked in) a construction the harness knows to be valid; the text is the
+    /// operation's result, so a refusal that depends on what happened earlier shows up in the comparison
+    fn params(&mut self, client: usize, bits: usize, cap: usize, ext: usize) -> Result<RangeParameters<G>, String> {
+        if !self.pool.contains_key(&(bits, cap, ext)) {
+            match guarded(|| G::params(bits, cap, G::pedersen(ext))) {
+                Ok(Ok(p)) => {
+                    self.pool.insert((bits, cap, ext), p);
+                },
+                Ok(Err(e)) => return Err(format!("valid_construction_refused:{}", err_class(&e))),
+                Err(_) => return Err("valid_construction_panicked".to_string()),
+            }
+        }
+        let p = self.pool[&(bits, cap, ext)].clone();
         self.clones[client].push(p.clone());
-        p
+        Ok(p)
     }
 }
 
 fn prove_desc<G: Group>(env: &mut Env<G>, client: usize, d: &ProveDesc) -> (String, Option<(RangeStatement<G>, RangeProof<G>)>) {
-    let params = env.params(client, d.cfg.bits, d.cfg.cap, d.cfg.ext);
+    let params = match env.params(client, d.cfg.bits, d.cfg.cap, d.cfg.ext) {
+        Ok(p) => p,
+        Err(e) => return (e, None),
+    };
     let built = build_with_params::<G>(params, &d.cfg, &d.wit);
     // the caller's transcript is an argument too: what the call leaves in it is part of the result
     let mut t = d.ctx.transcript();
@@ -128,10 +143,25 @@ fn prove_desc<G: Group>(env: &mut Env<G>, client: usize, d: &ProveDesc) -> (Stri
     }
 }
 
+/// One operation; a valid parameter construction the library refuses becomes the operation's result (so a
+/// refusal that depends on earlier calls differs from the baseline), any other harness panic propagates.
 pub fn exec_op<G: Group>(env: &mut Env<G>, client: usize, op: &Op) -> String {
+    match std::panic::catch_unwind(std::panic::AssertUnwindSafe(|| exec_op_inner(env, client, op))) {
+        Ok(s) => s,
+        Err(p) => match p.downcast_ref::<ValidConstructionRefused>() {
+            Some(v) => format!("valid_construction_{}", v.0),
+            None => std::panic::resume_unwind(p),
+        },
+    }
+}
+
+fn exec_op_inner<G: Group>(env: &mut Env<G>, client: usize, op: &Op) -> String {
     match op {
         Op::Construct { bits, cap, ext } => {
-            let p = env.params(client, *bits, *cap, *ext);
+            let p = match env.params(client, *bits, *cap, *ext) {
+                Ok(p) => p,
+                Err(e) => return e,
+            };
             let mut bytes = Vec::new();
             for g in p.gi_base_iter().take(4).chain(p.hi_base_iter().take(4)).chain(p.g_bases().iter()) {
                 bytes.extend_from_slice(&G::enc(g));
@@ -202,7 +232,10 @@ pub fn exec_op<G: Group>(env: &mut Env<G>, client: usize, op: &Op) -> String {
             }
         },
         Op::ProveAfterFailedAttempt(d) => {
-            let params = env.params(client, d.cfg.bits, d.cfg.cap, d.cfg.ext);
+            let params = match env.params(client, d.cfg.bits, d.cfg.cap, d.cfg.ext) {
+                Ok(p) => p,
+                Err(e) => return e,
+            };
             let built = build_with_params::<G>(params.clone(), &d.cfg, &d.wit);
             // a witness whose first blinding is off by one: does not open the commitment
             let mut wrong = d.wit.clone();
@@ -297,7 +330,7 @@ pub fn exec_op<G: Group>(env: &mut Env<G>, client: usize, op: &Op) -> String {
                 let sts2: Vec<RangeStatement<G>> = members
                     .iter()
                     .map(|d| {
-                        let fresh = G::params(d.cfg.bits, d.cfg.cap, G::pedersen(d.cfg.ext)).expect("params");
+                        let fresh = valid_params::<G>(d.cfg.bits, d.cfg.cap, G::pedersen(d.cfg.ext));
                         build_with_params::<G>(fresh, &d.cfg, &d.wit).statement
                     })
                     .collect();
@@ -320,6 +353,18 @@ pub fn exec_op<G: Group>(env: &mut Env<G>, client: usize, op: &Op) -> String {
         Op::DropClones => {
             env.clones[client].clear();
             "dropped".to_string()
+        },
+        Op::FailingConstruction { bits, ext, kind } => {
+            let (b, c) = match kind {
+                0 => (*bits, 1usize << 63),
+                1 => (*bits, 3),
+                _ => (0, 1),
+            };
+            match guarded(|| G::params(b, c, G::pedersen(*ext))) {
+                Ok(Ok(_)) => "construction:ok".to_string(),
+                Ok(Err(e)) => format!("construction:err:{}", err_class(&e)),
+                Err(_) => "construction:panicked".to_string(),
+            }
         },
     }
 }
@@ -524,6 +569,7 @@ fn op_kind(op: &Op) -> String {
         Op::WithIdentityGenerator { .. } => "with_identity_generator",
         Op::Codec(_) => "codec",
         Op::DropClones => "drop",
+        Op::FailingConstruction { .. } => "failing_construction",
         Op::UnderOwnGenerators { .. } => "under_own_generators",
     }
     .to_string()
@@ -631,6 +677,10 @@ impl Check for C18 {
                 let op = match rng.below(12) {
                     0 => {
                         let c = Config::generate(rng, max_full, 4);
+                        // (no draw: the scenario stream of earlier harness versions is kept)
+                        if (c.bits + c.cap + c.ext) % 3 == 0 {
+                            before = Some(Op::FailingConstruction { bits: c.bits, ext: c.ext, kind: (c.ext % 3) as u8 });
+                        }
                         Op::Construct { bits: c.bits, cap: c.cap, ext: c.ext }
                     },
                     1 => {
